@@ -39,7 +39,8 @@ def gen_named_literal(schema, name, t, null_pct=15, varhook=None, depth=0):
         return ("int", t.choose(INT_POOL))
     if name == "Float":
         if t.chance(25):
-            return ("int", t.choose(INT_POOL[:7]))
+            # an integer literal is a valid Float literal, also beyond the 32-bit Int range
+            return ("int", t.choose(INT_POOL[:7] + [3000000000, -3000000000, 2 ** 53, 10 ** 15]))
         return ("float", t.choose(FLOAT_POOL))
     if name == "String":
         return ("str", t.choose(STR_POOL))
